@@ -8,6 +8,7 @@ import (
 	"os"
 	"os/exec"
 	"path/filepath"
+	"reflect"
 	"sort"
 	"strings"
 	"sync"
@@ -367,7 +368,7 @@ func runC09(r *ev.Recorder) {
 		"no package-level variable is written by one job and accessed by another (a data race by construction). "+
 		"(2) histories: every permutation of the first five and every ordered triple of all %d jobs rendered sequentially in one process, each sequence twice; then 1500 failing and (recovered) panicking renders of unrelated Files followed by every job again; every subset of 7 shareable parts (a table of 40 composite-literal rows built with Dict, a Qual, a Case+Block, a Dict, a bare Block used after Case in one File and after If in the other, a Qual that is local to one File, two Clones of one base statement with spare capacity - one per File) "+
 		"shared between two Files of 4 configurations, rendered in both orders and twice - each output must equal that of a File built privately. "+
-		"(3) race pass: the same job bodies on free-running goroutines in a -race build (complement: a cooperative scheduler's hand-offs hide unsynchronised accesses). "+
+		"every exported builder x C14's argument combinations rendered in ascending and then in descending order of cases: same bytes both times. (3) race pass: the same job bodies on free-running goroutines in a -race build (complement: a cooperative scheduler's hand-offs hide unsynchronised accesses). "+
 		"states = schedules + orders + sharings executed; distinct_nontrivial = distinct schedules with at least one preemption + sharings between Files whose private renderings differ", jn, bound, len(jobSets), len(c09Jobs))
 	r.Assume = []string{"jobs share no Code values in (1) and (3), as the property's hypothesis states", "accesses to package-level variables are the only non-commuting steps of independent jobs (jennifer uses no locks, channels or atomics; the instrumenter reports if that changes)",
 		"memory-model effects weaker than sequential consistency are not modelled; data-race freedom is decided by the race detector pass and the write report",
@@ -468,6 +469,47 @@ func runC09(r *ev.Recorder) {
 			desc := fmt.Sprintf("after 1500 failing and panicking renders of unrelated Files, job %s differs from its solo output", j.name)
 			r.Violate(ev.Violation{Signature: "c09:after-failures:" + j.name, What: desc, Case: ev.JSON(c09Case{Kind: "order", Jobs: []int{i}, Desc: desc}), Detail: fmt.Sprintf("--- got\n%s\n--- solo\n%s", o, solo[j.name])})
 		}
+	}
+	// (2c) every exported builder x every argument combination of C14's domains, as a File of its own
+	// and stand-alone (GoString): all cases in order, then all cases in reverse order - each case
+	// must give the same bytes in both passes, whatever was built and rendered before it
+	{
+		cs, _ := c14Constructs()
+		type cc struct {
+			c     c14Construct
+			combo []int
+		}
+		var all []cc
+		for _, c := range cs {
+			for _, combo := range combos(c.domains) {
+				all = append(all, cc{c, combo})
+			}
+		}
+		renderCase := func(x cc) string {
+			st := jen.Var().Id("_").Op("=")
+			if _, p := call(reflect.ValueOf(st).MethodByName(x.c.name), x.c.args(x.combo, new(int)), x.c.isVar); p != nil {
+				return "build panic"
+			}
+			f := jen.NewFile("p")
+			f.NoFormat = true
+			f.Add(st)
+			return c09Out(f) + "\x00" + jh.Catch(func() (string, error) { return st.GoString(), nil }).Key()
+		}
+		first := make([]string, len(all))
+		for i, x := range all {
+			first[i] = renderCase(x)
+		}
+		for i := len(all) - 1; i >= 0 && !stop(); i-- {
+			got := renderCase(all[i])
+			r.Eval(1)
+			states++
+			transitions += 2
+			if got != first[i] {
+				desc := fmt.Sprintf("%s rendered among all other constructs: in ascending order of cases it gives different bytes than in descending order", all[i].c.describe(all[i].combo))
+				r.Violate(ev.Violation{Signature: "c09:construct-order:" + all[i].c.name, What: desc, Case: ev.JSON(c09Case{Kind: "order", Desc: desc}), Detail: fmt.Sprintf("--- ascending pass\n%s\n--- descending pass\n%s", first[i], got)})
+			}
+		}
+		r.Note("construct_cases_rendered_in_both_orders", len(all))
 	}
 	if changed := snap0.Changed(); len(changed) > 0 {
 		sort.Strings(changed)
